@@ -904,7 +904,7 @@ var protoASCII = harness.Register(&harness.Facet[protoCase]{
 	Name:     "protocol",
 	Rule:     protoRule + "; subjects over a b c A B C 1 _ space - . \\n \\t",
 	Quick:    3500,
-	Thorough: 60000,
+	Thorough: 50000,
 	Gen:      genProto(false),
 	Check:    checkProto,
 })
@@ -913,7 +913,7 @@ var protoUnicode = harness.Register(&harness.Facet[protoCase]{
 	Name:     "protocol-unicode",
 	Rule:     protoRule + "; subjects extended with é É U+2028 CR and the astral U+1F600 (offsets in bytes, code points and code units all differ)",
 	Quick:    2000,
-	Thorough: 30000,
+	Thorough: 25000,
 	Gen:      genProto(true),
 	Check:    checkProto,
 })
@@ -974,7 +974,7 @@ var splitStr = harness.Register(&harness.Facet[splitStrCase]{
 	Name:     "split-string",
 	Rule:     "rapid: subject <= 8 units over the ASCII or the extended alphabet, separator = a substring of the subject (70%), the empty string, or 1-2 random units, limit from the odd pool or absent; compared with the 15.5.4.14 loop using the string SplitMatcher. non-trivial = more or fewer than one part, or a limit given; distinct by the whole case",
 	Quick:    2500,
-	Thorough: 40000,
+	Thorough: 30000,
 	Gen: func(t *rapid.T) splitStrCase {
 		uni := rapid.Bool().Draw(t, "unicode")
 		c := splitStrCase{Subject: m10.GenSubject(t, nil, false, uni, 8)}
